@@ -34,6 +34,10 @@ func (sc *SubnetConfig) getSubnetsVarint(seed []byte, weighted bool) ([]*phantom
 		choices := make([]wr.Choice, 0, len(sc.WeightedSubnets))
 		for _, cjSubnet := range sc.WeightedSubnets {
 			cjSubnet := cjSubnet // copy loop ptr
+			if len(cjSubnet.GetSubnets()) == 0 {
+				// legacy clients leave a group without subnets (and its weight) out of the choice
+				continue
+			}
 			choices = append(choices, wr.Choice{Item: cjSubnet, Weight: uint(cjSubnet.GetWeight())})
 		}
 		c, err := wr.NewChooser(choices...)
